@@ -373,13 +373,16 @@ class DataFrame:
         null_ok
         """
         result = []
-        for column in self.column_names:
+        for index, column in enumerate(self.column_names):
             data_type = None
             data_precision = None
             data_scale = None
             nullable = None
             if isinstance(self._schema, RelationSchema):
-                column_data = self._schema.find_column(column)
+                # the column in this position: a lookup by name returns the first column bearing
+                # the name, which is a different column when the name is also an alias of an
+                # earlier column or when two columns have the same name
+                column_data = self._schema.columns[index]
                 column_type = column_data.type
                 if column_type is not None:
                     data_type = str(column_data.type.value)
